@@ -17,6 +17,10 @@ import (
 	"github.com/ElrondNetwork/elrond-go/marshal"
 	"github.com/ElrondNetwork/elrond-go/sharding"
 	"github.com/ElrondNetwork/elrond-go/sharding/mock"
+	"github.com/ElrondNetwork/elrond-go/storage"
+	"github.com/ElrondNetwork/elrond-go/storage/lrucache"
+	"github.com/ElrondNetwork/elrond-go/storage/memorydb"
+	"github.com/ElrondNetwork/elrond-go/storage/storageUnit"
 	"github.com/ElrondNetwork/elrond-go/testscommon/nodeTypeProviderMock"
 	"verif/internal/vk"
 )
@@ -181,6 +185,26 @@ func (cs *CoordSpec) Hasher() hashing.Hasher {
 // Build constructs a fresh coordinator (fresh shuffler, storer, validator objects; maps built in the
 // insertion order selected by order, nil = ascending)
 func (cs *CoordSpec) Build(order *vk.Rand, cache sharding.Cacher) (Coord, error) {
+	return cs.BuildWith(order, cache, mock.NewStorerMock())
+}
+
+// NewBootStorer creates a real storage unit (LRU cache over an in-memory persister), as the bootstrap
+// unit of a node is
+func NewBootStorer() storage.Storer {
+	c, err := lrucache.NewCache(100)
+	if err != nil {
+		panic(err)
+	}
+	u, err := storageUnit.NewStorageUnit(c, memorydb.New())
+	if err != nil {
+		panic(err)
+	}
+	return u
+}
+
+// BuildWith is Build with a given boot storer (a second coordinator built over the same storer can
+// LoadState what the first one saved, as a restarted node does)
+func (cs *CoordSpec) BuildWith(order *vk.Rand, cache sharding.Cacher, bootStorer storage.Storer) (Coord, error) {
 	sh, err := sharding.NewHashValidatorsShuffler(&sharding.NodesShufflerArgs{
 		NodesShard: cs.NodesShard, NodesMeta: cs.NodesMeta, Hysteresis: 0, Adaptivity: false,
 		ShuffleBetweenShards: cs.Cross, MaxNodesEnableConfig: append([]config.MaxNodesChangeConfig(nil), cs.MaxNodesCfg...),
@@ -192,7 +216,7 @@ func (cs *CoordSpec) Build(order *vk.Rand, cache sharding.Cacher) (Coord, error)
 	args := sharding.ArgNodesCoordinator{
 		ShardConsensusGroupSize: cs.ShardCons, MetaConsensusGroupSize: cs.MetaCons,
 		Marshalizer: &marshal.GogoProtoMarshalizer{}, Hasher: cs.Hasher(), Shuffler: sh,
-		EpochStartNotifier: &mock.EpochStartNotifierStub{}, BootStorer: mock.NewStorerMock(),
+		EpochStartNotifier: &mock.EpochStartNotifierStub{}, BootStorer: bootStorer,
 		ShardIDAsObserver: 0, NbShards: cs.NbShards,
 		EligibleNodes: BuildMap(cs.Eligible, nil, cs.Shards(), order, nil),
 		WaitingNodes:  BuildMap(cs.Waiting, nil, cs.Shards(), order, nil),
